@@ -36,6 +36,7 @@ def run(ctx):
     ctx.guard(owner_first)
     ctx.guard(authoritative)
     ctx.guard(swizzle_active)
+    ctx.guard(pair_shape_order)
 
 
 def _walk(stmts):
@@ -524,3 +525,46 @@ def swizzle_active(ctx):
                            "<= the first stored coordinate" if which == "start"
                            else "> the last stored coordinate"),
                         text_="swizzle active %s" % which)
+
+
+# -- R1: pair-style shapes nest in coordinate order ---------------------------
+
+def pair_shape_order(ctx):
+    """A pair-style flatten turns coordinates (c0, c1, ..., cn) into
+    (c0, (c1, (... (cn-1, cn)))).  The shape is assembled by folding
+    `acc = (val, acc)` over the leading shapes: prepending preserves the
+    order only if the leading shapes are visited last-to-first."""
+    f = ctx.method("Tensor", "_flattenRankIdsShape")
+    folds = []
+    for lp in f.own_nodes():
+        if not isinstance(lp, ast.For) or not isinstance(lp.target, ast.Name):
+            continue
+        for st in lp.body:
+            if isinstance(st, ast.Assign) and len(st.targets) == 1 and \
+                    isinstance(st.targets[0], ast.Name) and \
+                    isinstance(st.value, ast.Tuple) and len(st.value.elts) == 2:
+                acc = st.targets[0].id
+                a, b = st.value.elts
+                if isinstance(a, ast.Name) and a.id == lp.target.id and \
+                        isinstance(b, ast.Name) and b.id == acc:
+                    folds.append((lp, st, "prepend"))
+                elif isinstance(b, ast.Name) and b.id == lp.target.id and \
+                        isinstance(a, ast.Name) and a.id == acc:
+                    folds.append((lp, st, "append"))
+    ctx.require(folds, "C14.R1: pair-style shape fold of _flattenRankIdsShape not found")
+    for lp, st, how in folds:
+        it = lp.iter
+        desc = (isinstance(it, ast.Call) and text(it.func) == "reversed") or (
+            isinstance(it, ast.Subscript) and isinstance(it.slice, ast.Slice)
+            and it.slice.step is not None and text(it.slice.step).replace(" ", "") == "-1")
+        if how == "prepend" and desc:
+            ctx.ok("C14.R1", f, lp, "pair-style shape nests the leading shapes "
+                   "in coordinate order (prepend over the reversed prefix)",
+                   text_="pair shape fold")
+        else:
+            ctx.bad("C14.R1", f, lp, "the pair-style shape is folded with `%s` "
+                    "over `%s`: the leading shapes come out in a different order "
+                    "than the coordinates (c0, (c1, (...))), so stored "
+                    "coordinates lie outside the reported shape when three or "
+                    "more ranks are flattened" % (text(st), text(it)),
+                    text_="pair shape fold")
